@@ -219,7 +219,7 @@ def judge(prop, rep, binary, scripts, work, replay, acc):
                 rep.violation("answer:semantic-tokens-not-in-utf16-units", {"tokens": True, "text_code_points": text, "script": scripts[ri] if ri < len(scripts) else None},
                               f"semanticTokens/full for a text opened in one didOpen: {e['tokBad']} token(s) start beyond / overlap / end beyond their line when read in UTF-16 code units")
             if e["a"] == "Probe":
-                for who in ("renIncr", "renFresh"):
+                for who in ("renFresh",):
                     acc["renames"] = acc.get("renames", 0) + (1 if e.get(who, -1) >= 0 else 0)
                     if e.get(who, -1) > 0 and acc.setdefault("ren_reported", 0) < 20:
                         acc["ren_reported"] += 1
